@@ -293,6 +293,10 @@ func genQStmt(r *Rng, s QSchema, idx int, risky bool) QStmt {
 				q.SQL += " OFFSET " + g.param("")
 			}
 		}
+	case k < 36 && g.mysql: // placeholders in the select list, the join condition and the filter
+		q.Cmd = ":many"
+		g.tag("select-list-placeholder")
+		q.SQL = fmt.Sprintf("SELECT a.id + %s, b.id FROM %s a JOIN %s b ON b.id = a.id AND b.%s = %s WHERE a.%s = %s", g.param(""), t.Name, u.Name, u.Cols[1].Name, g.param(""), t.Cols[1].Name, g.param(""))
 	case k < 45: // join
 		q.Cmd = ":many"
 		g.tag("join")
